@@ -102,19 +102,7 @@ def build(config, tier):
         # product conventions (same-expression obligations against glam's own vector ops, cvc5)
         leq = "__verif::leq%dx%d" % (M.w, R)
         if not M.affine:
-            V = M.col
-            terms = ["m.col(%d) * v.to_array()[%d]" % (c, c) for c in range(C)]
-            sums = []
-            if C == 2:
-                sums = ["(%s + %s)" % (terms[0], terms[1])]
-            elif C == 3:
-                sums = ["((%s + %s) + %s)" % (terms[0], terms[1], terms[2]), "(%s + (%s + %s))" % (terms[0], terms[1], terms[2]), "((%s + %s) + %s)" % (terms[0], terms[2], terms[1])]
-            else:
-                sums = ["(((%s + %s) + %s) + %s)" % tuple(terms), "((%s + %s) + (%s + %s))" % tuple(terms), "((%s + %s) + (%s + %s))" % (terms[0], terms[2], terms[1], terms[3])]
-            body = "let m = mk::<%s>(); let v = mk::<%s>(); let r = m * v;\n    check!(%s, \"M*v is the sum of v[c]*col(c)\");" % (
-                N, V, " || ".join("%s(r.to_array(), %s.to_array())" % (leq, s_) for s_ in sums))
-            obs.append(Ob("c06_%s_%s_mul_vec" % (config, ln), PROP, body, fn="%s * %s" % (N, V), kind="lemma", solver="cvc5", stubs=["sse"], cls="structure",
-                          desc="%s * %s equals the sum over c of col(c) * v[c] (IEEE value, any of the listed association orders): columns act on column vectors from the left" % (N, V)))
+            pass  # M*v == sum_c v[c]*col(c): tree_in obligation of C03 (mul_vec)
         else:
             V = M.col
             P, Vv = ("transform_point2", "transform_vector2") if R == 2 else (("transform_point3a", "transform_vector3a") if N == "Affine3A" else ("transform_point3", "transform_vector3"))
